@@ -7,7 +7,7 @@ from . import cfront
 from .core import AnalysisError
 
 MATH = {"sqrt": sp.sqrt, "sinh": sp.sinh, "sin": sp.sin, "cos": sp.cos, "fabs": sp.Abs, "exp": sp.exp, "log": sp.log,
-        "cosh": sp.cosh, "tan": sp.tan, "pow": lambda a, b: a ** b, "log10": lambda a: sp.log(a, 10)}
+        "cosh": sp.cosh, "tan": sp.tan, "acos": sp.acos, "asin": sp.asin, "atan": sp.atan, "atan2": sp.atan2, "pow": lambda a, b: a ** b, "log10": lambda a: sp.log(a, 10)}
 
 
 class CUnsupported(AnalysisError):
